@@ -50,6 +50,8 @@ def _static_job(args):
                 bad = SI.progress(fn)
             elif name == "prologue":
                 bad = SI.prologue(fn, member)
+            elif name == "shadowing":
+                bad = SI.shadowing(fn)
             elif name == "value_blind":
                 bad = SI.value_blind(fn)
             elif name == "compute_ro":
